@@ -5,4 +5,4 @@ Require Extraction.
 Require Import ExtrOcamlBasic.
 Extraction Language OCaml.
 Extraction "../ocaml/c08/model.ml" x86_convert x86 zlib_encode zlib_decode
-  syslzma_encode lzma_encode lzmax86_encode lzmax86_decode E_CODEC.
+  syslzma_encode lzma_encode lzmax86_encode lzmax86_decode E_CODEC call_history.
